@@ -234,7 +234,14 @@ def impl_run(case, tpl, workdir):
         kw.pop("ordered", None)
     else:
         pixels = make_iter(case["items"], case["chunkform"])
-    st, msg = G.guarded(lambda: cooler.create_cooler(uri, G.bins_for(WIDTHS), pixels, **kw), 60)
+    if case.get("api") == "create":     # cooler.create.create with the deprecated append flag: mode = "a" if append else "w"
+        from cooler.create import create as _create
+        kw.pop("ordered", None)
+        kw.pop("mode", None)
+        kw["append"] = (mode == "a")
+        st, msg = G.guarded(lambda: _create(uri, G.bins_for(WIDTHS), pixels, **kw), 60)
+    else:
+        st, msg = G.guarded(lambda: cooler.create_cooler(uri, G.bins_for(WIDTHS), pixels, **kw), 60)
     after, listing = observe(path, paths)
     opens, _ = G.guarded(lambda: cooler.Cooler(uri).info, 20)
     leftovers = sorted(fn for fn in os.listdir(workdir) if fn != "t.cool")
@@ -367,6 +374,13 @@ def gen_cases(ctx):
                 cases.append({"scenario": scen, "dest": list(dest), "mode": mode, "in_scope": scope, "symm": True, "ordered": True, "form": "frame",
                               "stream": -1, "fault": ["record", kind, 0, pos, rec] if kind else None, "items": [rows], "chunkform": ["df", "dict"][k % 2]})
             k += 1
+    # cooler.create.create called directly: the mode / append rule
+    for fi, (si, fault) in enumerate(faults):
+        if si == 2 and (fault is None or fault[0] == "raise" or (fault[0] == "record" and fault[3] == 0 and fault[1] in ("excess", "dup"))):
+            for ti in (1, 10):
+                scen, dest, mode, scope = TARGETS[ti]
+                cases.append({"scenario": scen, "dest": list(dest), "mode": mode, "in_scope": scope, "symm": True, "ordered": True, "api": "create",
+                              "stream": si, "fault": list(fault) if fault else None, "items": apply_fault(BASE_STREAMS[si], fault), "chunkform": "dict"})
     return cases
 
 
